@@ -891,10 +891,17 @@ def find_replace(
 
         template_replacement = core.format_template(replace, combined_match, **callables)
 
-        indentation = formatting.indentation_level(source[range_start:range_end])
+        # The first line of the match starts at its own column, so the indentation must be measured
+        # from the start of that line. The first line of the replacement is inserted at that column,
+        # so it is not indented again.
+        line_start = max(source.rfind("\n", 0, range_start), source.rfind("\r", 0, range_start)) + 1
+        indentation = formatting.indentation_level(source[line_start:range_end])
 
         template_replacement = textwrap.dedent(template_replacement)
         template_replacement = textwrap.indent(template_replacement, " " * indentation)
+        template_replacement = template_replacement[
+            min(indentation, len(template_replacement) - len(template_replacement.lstrip(" "))) :
+        ]
 
         item = [replacement_range, template_replacement]
         if transaction is not None:
